@@ -52,11 +52,14 @@ def generate(rng, hostile=False, regimes=("lf", "crlf", "cr", "mixed"), max_file
     from bumpver import v2version
     lay = Layout()
     lay.vp = rng.choice(VERSION_PATTERNS)
-    date = dt.date(rng.randrange(2019, 2030), rng.randrange(1, 13), rng.randrange(1, 28))
-    tag = rng.choice(["final", "final", "beta", "rc"])
-    vinfo = glue.make_vinfo(date, major=rng.choice([0, 1, 9, 10]), minor=rng.choice([0, 1, 9]), patch=rng.choice([0, 3, 9, 99]), bid=rng.choice(["1001", "0099", "22000"]),
-                            tag=tag, num=rng.choice([0, 1]) if tag != "final" else 0, inc0=rng.choice([0, 1, 9]))
-    old = v2version.format_version(vinfo, lay.vp)
+    while True:
+        date = dt.date(rng.randrange(2019, 2030), rng.randrange(1, 13), rng.randrange(1, 28))
+        tag = rng.choice(["final", "final", "beta", "rc"])
+        vinfo = glue.make_vinfo(date, major=rng.choice([0, 1, 9, 10]), minor=rng.choice([0, 1, 9]), patch=rng.choice([0, 3, 9, 99]), bid=rng.choice(["1001", "0099", "22000"]),
+                                tag=tag, num=rng.choice([0, 1]) if tag != "final" else 0, inc0=rng.choice([0, 1, 9]))
+        old = v2version.format_version(vinfo, lay.vp)
+        if old:            # an all-zero version renders as the empty text (observation S12): not a usable current version
+            break
     vinfo = v2version.parse_version_info(old, lay.vp)
     lay.old_version = old
     stale_vinfo = glue.make_vinfo(date - dt.timedelta(days=400), major=max(0, vinfo.major - 1), minor=vinfo.minor + 1, patch=1, bid="1000", tag="final", num=0, inc0=0)
